@@ -392,6 +392,89 @@ func (r *foRun) oracleC04() {
 		}
 	}
 
+	// R7: a later Get observes the result of the last completed build. The value the backend holds for a key
+	// at quiescence is what such a Get is served (or refreshes from): when the last successful store under the
+	// key carries the result of an older build (or the value that was there before any build) than an earlier
+	// store did, a completed build was rolled back. Only values whose origin is known are judged (values stored
+	// by other parts of the application are not builds).
+	origin := map[interface{}]uint64{}
+
+	for _, b := range r.builds {
+		if b.exited && !b.fail {
+			origin[interface{}(b.tok)] = b.exit
+		}
+	}
+
+	for _, k := range r.sc.Keys {
+		origin[interface{}(Tok{K: k, ID: "pre"})] = 0
+	}
+
+	lastStore := map[string]*beCall{}
+	newest := map[string]*beCall{} // per key: the successful store whose value has the latest origin
+	unknown := map[string]bool{}
+
+	for _, c := range r.calls {
+		if c.kind != "write" || c.err != nil {
+			continue
+		}
+
+		og, ok := origin[c.val]
+		if !ok {
+			unknown[c.key] = true
+
+			continue
+		}
+
+		lastStore[c.key] = c
+
+		if n := newest[c.key]; n == nil || og > origin[n.val] {
+			newest[c.key] = c
+		}
+	}
+
+	for _, sw := range r.sideWrites {
+		unknown[sw.key] = true
+	}
+
+	for _, k := range r.sc.Keys {
+		l, n := lastStore[k], newest[k]
+		if l == nil || unknown[k] {
+			continue
+		}
+
+		out.probe("last_store_judged")
+
+		if origin[l.val] < origin[n.val] {
+			// how did it come about? The overwriting store is classified by what its task knew: its last backend
+			// read of the key, before or after the newer value was stored, and whether it stored a value that
+			// already existed when it read (a refresh of what it had read) or something it built afterwards.
+			var rd *beCall
+
+			for _, c := range r.calls {
+				if c.kind == "read" && c.key == k && c.task == l.task && c.seq < l.seq {
+					rd = c
+				}
+			}
+
+			by, read := "own-build", "none"
+
+			if rd != nil {
+				read = "after-newer-store"
+				if rd.seq < n.seq {
+					read = "before-newer-store"
+				}
+
+				if origin[l.val] < rd.seq {
+					by = "refresh-of-value-read"
+				}
+			}
+
+			out.violate("C04.R7", fmt.Sprintf("completed-build-rolled-back by=%s read=%s syncRead=%v", by, read, r.sc.Cfg.SyncRead),
+				"key %q: %v (build finished at seq %d) was stored at seq %d, afterwards, at seq %d, %v (origin seq %d: an older build, or the value cached before any build) was stored over it by task %s; everything has finished and a later Get observes %v, not the result of the last completed build",
+				k, n.val, origin[n.val], n.seq, l.seq, l.val, origin[l.val], l.task, l.val)
+		}
+	}
+
 	for _, o := range r.ops {
 		if o.op.MutateKey != "" {
 			for _, b := range o.builds {
